@@ -341,6 +341,14 @@ class SessionRulesPlugin(Plugin):
         if fills and cfg is not None and not cfg["withOrderExecution"]:
             mon.viol("C09", "fill_in_no_execution_session",
                      {"market": market.name, "session": ses.session_id, "t": fills[0].time, "n": len(fills)})
+        elif (fills and cfg is not None and mon.driver == "A" and rnd is not None and rnd.get("switch") is False
+              and not rnd.get("forced")):
+            # the switch was configured on but had been turned off (trading halt, user-written breaker) before this
+            # round began - e.g. by a fill earlier in the same batch, on another market
+            mon.viol("C09", "fill_while_execution_switched_off",
+                     {"market": market.name, "session": ses.session_id, "t": fills[0].time, "n": len(fills)})
+        if rnd is not None and rnd.get("switch") is False and mon.driver == "A":
+            mon.probe("round_with_switch_off")
 
     def on_step_record(self, mon, log, code):
         self._need_round_check(mon, code)
